@@ -102,7 +102,8 @@ fn k13_3_forced_byte_probe() {
     kani::cover!(got.is_some());
     kani::cover!(got.is_none() && viable[x as usize]);
     kani::cover!(got.is_none() && matches!(hint, NextByte::SomeBytes2(_)));
-    kani::cover!(matches!(got, Some(b) if matches!(hint, NextByte::SomeBytes1(h) if h == b.wrapping_add(1))));
+    let vc_4 = matches!(got, Some(b) if matches!(hint, NextByte::SomeBytes1(h) if h == b.wrapping_add(1)));
+    kani::cover!(vc_4);
 }
 
 #[kani::proof]
